@@ -447,6 +447,7 @@ func (s *state) evalMsgParts(msgNode *ast.MsgNode, parts []soymsg.Part) {
 					part.Name, soymsg.PlaceholderString(msgNode))
 			}
 			s.walk(phnode.Body)
+			s.at(msgNode) // what follows is again the message's own business
 
 		case soymsg.PluralPart:
 			// Find the corresponding node for this part and evaluate the argument.
